@@ -335,9 +335,11 @@ class Sim:
         except Exception:
             pass
         try:
-            await self.db.async_close()
-        except Exception:
-            pass
+            # after an op died mid-iteration a streaming select may still hold its connection: do not wait for it forever
+            await asyncio.wait_for(self.db.async_close(), 5)
+        except BaseException as e:   # noqa
+            if isinstance(e, asyncio.CancelledError):
+                raise
 
     # ---- raw access for oracles ------------------------------------------------------------------
     def q(self, sql, args=()):
